@@ -12,7 +12,7 @@ PROPERTY = "C20"
 LEVEL = "exploration"
 RULE = ("'fn' cases: each of the 16 public unit-scaled functions with seeded shapes / hyper-parameters / constraint (as C01, random ops "
         "with p=0); 'comp' cases: random compositions of 2-6 unit-scaled functions and modules (Linear, MLP, MHSA, TransformerLayer, "
-        "norms, residual_apply, losses); dtypes float32 / float64 / bfloat16. Each is executed eagerly and under torch.compile with "
+        "norms, residual_apply, losses; 30% of the loss-free ones END in residual_split with both outputs leaving the compiled region, or break the graph right after it - under Inductor that form is only judged if a library-free witness of a PyTorch defect does not reproduce); dtypes float32 / float64 / bfloat16. Each is executed eagerly and under torch.compile with "
         "backend aot_eager (quick) and inductor (thorough), after torch._dynamo.reset(); outputs and all input/parameter gradients "
         "are compared; the Dynamo counters must show a captured graph (otherwise the comparison would be eager-vs-eager). fx: "
         "symbolic_trace + GraphModule forward values for every function that traces; the library's leaf-wrapping tracer "
